@@ -268,7 +268,14 @@ class Server(Acceptor):
         self.serviceAccepts()  # populate .axes
         while self.axes:
             cs, ca = self.axes.popleft()
-            if ca != cs.getpeername() or self.eha[1] != cs.getsockname()[1]: # only port on eha
+            try:
+                peer = cs.getpeername()
+            except OSError as ex:  # peer already reset connection so drop it
+                logger.error("Accepted connection from %s already gone.\n%s\n",
+                             ca, ex)
+                cs.close()
+                continue
+            if ca != peer or self.eha[1] != cs.getsockname()[1]: # only port on eha
                 raise ValueError("Accepted socket host addresses malformed for "
                                  "peer. ca {0} != {1} or ha port {2} != {3}\n"
                                  "".format(ca, cs.getpeername(), self.eha, cs.getsockname()))
@@ -546,7 +553,14 @@ class ServerTls(Server):
         self.serviceAccepts()  # populate .axes
         while self.axes:
             cs, ca = self.axes.popleft()
-            if ca != cs.getpeername() or self.eha[1] != cs.getsockname()[1]: # only port on eha
+            try:
+                peer = cs.getpeername()
+            except OSError as ex:  # peer already reset connection so drop it
+                logger.error("Accepted connection from %s already gone.\n%s\n",
+                             ca, ex)
+                cs.close()
+                continue
+            if ca != peer or self.eha[1] != cs.getsockname()[1]: # only port on eha
                 raise ValueError("Accepted socket host addresses malformed for "
                                  "peer. ca {0} != {1} or ha port {2} != {3}\n"
                                  "".format(ca, cs.getpeername(), self.eha, cs.getsockname()))
